@@ -20,7 +20,7 @@ structure PktCall where
   w : Nat
   n : Bool
   elems    : List Bytes         -- OBUElements after the call (nil = empty)
-  frames   : Res (List Bytes)   -- frame.AV1.ReadFrames after a successful Unmarshal (ok [] otherwise)
+  frames   : Res (List Bytes)   -- frame.AV1.ReadFrames after a successful Unmarshal, or after any Unmarshal where the case says so (ok [] if not called)
   twinSame : Bool               -- equal to a twin pair fed never-overwritten copies
   deriving DecidableEq, Repr, Inhabited
 
